@@ -34,7 +34,7 @@ var c15Events = func() []string {
 	for _, f := range []string{"page", "comp", "lay"} {
 		ev = append(ev, "delete:"+f, "invalid:"+f)
 	}
-	ev = append(ev, "render:load", "render:file", "render:vue", "render:fragment")
+	ev = append(ev, "render:load", "render:file", "render:vue", "render:fragment", "render:vuenil")
 	return ev
 }()
 
@@ -44,7 +44,7 @@ func c15Content(f string, v int, invalid bool) string {
 	}
 	switch f {
 	case "page":
-		return fmt.Sprintf("---\nlayout: lay\ntitle: T%d\n---\n<h1>{{ title }} P%d</h1><template include=\"comp.vuego\"></template>", v, v)
+		return fmt.Sprintf("---\nlayout: lay\ntitle: T%d\n---\n<template :title=\"title + '!'\"></template><h1>{{ title }} P%d</h1><template include=\"comp.vuego\"></template>", v, v)
 	case "comp":
 		return fmt.Sprintf("---\ncv: CV%d\n---\n<b>C%d {{ cv }}</b>", v, v)
 	case "lay":
@@ -142,6 +142,8 @@ func c15Render(entry string, tpl vuego.Template, vue *vuego.Vue) string {
 		err = tpl.New().RenderFile(bg, &buf, "page.vuego")
 	case "vue":
 		err = vue.Render(&buf, "page.vuego", map[string]any{"x": 1})
+	case "vuenil": // a render without any data
+		err = vue.Render(&buf, "page.vuego", nil)
 	case "fragment":
 		err = vue.RenderFragment(&buf, "page.vuego", map[string]any{"x": 1})
 	}
@@ -404,7 +406,7 @@ func (c *c15Case) Run(ctx *core.Ctx) {
 				w.sync()
 			case "render":
 				eng := "tpl"
-				if arg == "vue" || arg == "fragment" {
+				if arg == "vue" || arg == "fragment" || arg == "vuenil" {
 					eng = "vue"
 				}
 				cfs := w.efs[eng]
@@ -439,7 +441,9 @@ func (c *c15Case) Run(ctx *core.Ctx) {
 				// what the cache holds now (reference model of the documented cache: an entry is
 				// replaced whenever the file's mtime differs from the stored one, a failed load
 				// drops the entry, a file that is never reached is not touched)
-				if arg != "fragment" {
+				// (in the unconstrained zone the engine may have answered from its cache without
+				// loading anything: what it holds is unchanged)
+				if arg != "fragment" && !unconstrained {
 					ok := func(f string) bool { return w.files[f].exists && !w.files[f].invalid }
 					upd := func(f string) {
 						st := w.files[f]
@@ -513,7 +517,7 @@ func init() {
 	core.Register(&core.Check{
 		ID:    "C15",
 		Level: "model_checking",
-		Rule: "explicit-state search over all histories up to the bound of {edit page/component/layout with an mtime that advances, stays equal or goes back; delete; make invalid (broken front-matter); render through Load().Render, RenderFile, Vue.Render, Vue.RenderFragment} on an in-memory file system with chosen mtimes; each history is replayed on fresh long-lived engines. " +
+		Rule: "explicit-state search over all histories up to the bound of {edit page/component/layout with an mtime that advances, stays equal or goes back; delete; make invalid (broken front-matter); render through Load().Render, RenderFile, Vue.Render (with and without data), Vue.RenderFragment} on an in-memory file system with chosen mtimes; each history is replayed on fresh long-lived engines. " +
 			"A second world does the same for layout resolution: a post naming layout `wide` with a relative twin (blog/wide.vuego), a layouts/wide.vuego fallback and layouts/base.vuego, a page without layout; events create/edit/delete each of them, render both pages through Load().Render and RenderFile, and keep a loaded Template object across later events and render it then. " +
 			"oracle: after every render event, bytes/error equal those of newly created engines on the current files (differential, no hand-written expectation). states = distinct (file states, possibly-cached versions); a wrapping fs.FS counts reads to show that cache hits happen. non-trivial = all",
 		Bounds:      map[string]string{"quick": "histories of <=5 events over 19 event kinds; layout world: <=6 events over 12 kinds", "thorough": "histories of <=6 events; layout world <=7"},
